@@ -1152,7 +1152,7 @@ Examples:
             if len(split) == 1: # didn't contain '>', '<', '!=', or '='
                 print("Invalid constraint: %s" % constraint)
             eqn = {'lhs':split[0].rstrip('=').strip(), \
-                   'rhs':split[-1].lstrip('=').strip()}
+                   'rhs':'(%s)' % split[-1].lstrip('=').strip()}
             # get list of LHS,RHS that != forces not to appear
             eqn['neq'] = '[' + ','.join(j for (i,j) in zip(xLHS+xRHS,xRHS+xLHS) if eqn['lhs'] == i) + ']'
             eqn['rhs'] += eps.replace('e_', '_tol(%(rhs)s,tol,rel)' % eqn) \
